@@ -271,13 +271,24 @@ func (s *clientSocket) finishUpgradeTo(t ClientTransport, c *transport.Callbacks
 
 	c.Set(s.onPacket, s.onTransportClose)
 
+	// Pause the old transport first and wait until the poll request that is still in
+	// flight has been answered (the server releases it with a NOOP during the probe)
+	// and its packets have been delivered. The server starts to use the new transport
+	// as soon as it receives the UPGRADE packet; without this, packets of the pending
+	// poll and packets of the new transport are received concurrently and the frames of
+	// multi-frame (binary) Socket.IO packets get interleaved.
+	s.transportMu.RLock()
+	old := s.transport
+	s.transportMu.RUnlock()
+	old.Discard()
+	if w, ok := old.(interface{ WaitDrained(timeout time.Duration) }); ok {
+		w.WaitDrained(s.upgradeTimeout)
+	}
+
 	s.transportMu.Lock()
 	defer s.transportMu.Unlock()
 
-	old := s.transport
 	s.transport = t
-
-	old.Discard()
 
 	t.Send(p)
 	s.debug.Log("upgradeTo", "upgraded to", t.Name())
